@@ -4,30 +4,36 @@ From Akita Require Import Lib.Base C32.Model.
 Local Open Scope N_scope.
 
 (** ---------------------------------------------------------------- WF
-    Positions are indices into the trace (emission order). *)
-Definition at_ (tr : list tev) (i : nat) (e : tev) : Prop := nth_error tr i = Some e.
+    Declarative well-formedness of a trace (the list of events in emission order),
+    stated over every decomposition [tr = before ++ event :: after]. *)
+Definition start_ids (tr : list tev) : list N :=
+  flat_map (fun e => match e with TStart id _ _ _ _ => [id] | _ => [] end) tr.
+Definition end_ids (tr : list tev) : list N :=
+  flat_map (fun e => match e with TEnd id _ => [id] | _ => [] end) tr.
+
+Definition is_note (e : tev) (task t : N) : Prop := e = TTag task t \/ e = TMile task t.
 
 Definition WF_open (tr : list tev) : Prop :=
   (* every task is started at most once *)
-  (forall i j id p k l t p' k' l' t',
-      at_ tr i (TStart id p k l t) -> at_ tr j (TStart id p' k' l' t') -> i = j) /\
-  (* every end of a started task comes after its start, not before its start time, and is the only one *)
-  (forall i j id p k l t te,
-      at_ tr i (TStart id p k l t) -> at_ tr j (TEnd id te) ->
-      (i < j)%nat /\ t <= te /\ forall j' te', at_ tr j' (TEnd id te') -> j' = j) /\
-  (* every tag and milestone refers to a task started before it, lies at or after
-     the start time, and precedes (in position and time) the task's end, if any *)
-  (forall k task t, (at_ tr k (TTag task t) \/ at_ tr k (TMile task t)) ->
-      exists i p kd l ts, at_ tr i (TStart task p kd l ts) /\ (i < k)%nat /\ ts <= t /\
-        forall j te, at_ tr j (TEnd task te) -> (k < j)%nat /\ t <= te) /\
+  NoDup (start_ids tr) /\
+  (* an end of a started task comes after its start, not before its start time,
+     and is the only end of that task *)
+  (forall p id te rest, tr = p ++ TEnd id te :: rest -> In id (start_ids tr) ->
+     (exists par k l ts, In (TStart id par k l ts) p /\ ts <= te) /\
+     ~ In id (end_ids p) /\ ~ In id (end_ids rest)) /\
+  (* every tag and milestone refers to a task started before it and not yet ended,
+     lies at or after the start time, and at or before the end time *)
+  (forall p e task t rest, tr = p ++ e :: rest -> is_note e task t ->
+     (exists par k l ts, In (TStart task par k l ts) p /\ ts <= t) /\
+     ~ In task (end_ids p) /\
+     (forall te, In (TEnd task te) rest -> t <= te)) /\
   (* each location hosts tasks of a single kind *)
-  (forall i j id p k l t id' p' k' t',
-      at_ tr i (TStart id p k l t) -> at_ tr j (TStart id' p' k' l t') -> k = k').
+  (forall id par k l t id' par' k' t',
+     In (TStart id par k l t) tr -> In (TStart id' par' k' l t') tr -> k = k').
 
 (** at quiescence, additionally every started task has ended *)
 Definition WF (tr : list tev) : Prop :=
-  WF_open tr /\
-  (forall i id p k l t, at_ tr i (TStart id p k l t) -> exists j te, at_ tr j (TEnd id te)).
+  WF_open tr /\ (forall id, In id (start_ids tr) -> In id (end_ids tr)).
 
 (** ---------------------------------------------------------------- projection
     of the API model's events to trace events: locations are numbered
